@@ -58,15 +58,17 @@ META = {
         "code, so a dead cycle through block arguments stays and is not demanded by the oracle (its members "
         "are used by a terminator). A use of a value across blocks that violates dominance (a kept "
         "operation using a result defined in an unreachable block) is outside the statement: the generators "
-        "do not produce it. The oracle counts the effects of an operation with recursive effects over the "
+        "do not produce it. The oracle's reachability follows the successors of whatever operation ends a "
+        "block (known terminator or unregistered operation); a block ending in a REGISTERED non-terminator "
+        "with successors is not generated. The oracle counts the effects of an operation with recursive effects over the "
         "reachable blocks of its regions. Completeness (no removable operation / unreachable block remains) "
         "is demanded of the `dce` pass only, as the statement says; region_dce alone, the walker-based "
         "erasure and the greedy applier are checked for soundness and result preservation."
     ),
     "rule": (
         "stream B: seeded random specs (1-5 module-level operations, nesting depth <= 2, 1-4 blocks per "
-        "region, 18 operation kinds) plus ALL programs of one block with n <= 2 (quick) / n <= 3 (thorough) "
-        "operations over 7 kinds (5 for n = 3) x every single-operand choice; stream A: seeded proggen programs with "
+        "region, 20 operation kinds incl. unregistered operations, also as block-ending branches with successors) plus ALL programs of one block with n <= 2 (quick) / n <= 3 (thorough) "
+        "operations over 7 kinds (5 for n = 3) x every single-operand choice, plus fixed multi-block shapes whose blocks are only reachable through unregistered branch-like operations; stream A: seeded proggen programs with "
         "0-3 appended unreachable blocks, 3 input vectors each. A case is non-trivial if some variant "
         "removes at least one operation or block and at least one operation that is not a terminator stays. "
         "Distinct = distinct (spec or text)."
@@ -529,9 +531,10 @@ def run(ctx: core.Ctx) -> None:
     for n in range(1, bound + 1):
         for kinds, uses in gen.enum_small(n):
             small.append({"spec": gen.small_spec(kinds, uses)})
+    small.extend({"spec": sp} for sp in gen.unregistered_branch_specs())
     if quick:
         pool = list(gen.enum_small(3))
-        for kinds, uses in ctx.rng.sample(pool, 250):
+        for kinds, uses in ctx.rng.sample(pool, 150):
             small.append({"spec": gen.small_spec(kinds, uses)})
     for k in range(0, len(small), 400):
         if ctx.time_left() < 25:
@@ -543,7 +546,7 @@ def run(ctx: core.Ctx) -> None:
         ctx.extra["exhaustive_scope"] = (f"all programs of one block with <= {bound} operations over the kinds "
                                          f"{list(gen.SMALL_KINDS)} (n = 3: {list(gen.SMALL_KINDS_3)}) and every choice of at most one operand per operation")
     # stream B
-    nb = 500 if quick else 15000
+    nb = 350 if quick else 15000
     specs = [{"spec": gen.gen_spec(ctx.rng, max_depth=2 if i % 4 else 3)} for i in range(nb)]
     for k in range(0, nb, 200):
         if ctx.time_left() < 20:
@@ -551,7 +554,7 @@ def run(ctx: core.Ctx) -> None:
             break
         run_batch(ctx, specs[k:k + 200], "streamB", sem=False)
     # stream A
-    na = 80 if quick else 2500
+    na = 60 if quick else 2500
     texts: list[dict] = []
     for _ in range(na):
         texts.append(gen.gen_text(ctx.rng))
